@@ -262,7 +262,10 @@ typedef struct sigaction sa;
       ji.memfault_to = 0;                                             \
       sigjmp_buf jb;                                                  \
       ji.jump_back = (void*) &jb;                                     \
-      /* Store pointer to jumpinfo in TLS */                          \
+      /* Store pointer to jumpinfo in TLS, remembering the one of an */ \
+      /* enclosing YR_TRYCATCH (a scan started from a callback).     */ \
+      void* yr_trycatch_outer_jumpinfo = yr_thread_storage_get_value(   \
+          &yr_trycatch_trampoline_tls);                                 \
       yr_thread_storage_set_value(&yr_trycatch_trampoline_tls, &ji);  \
       if (sigsetjmp(jb, 1) == 0)                                      \
       {                                                               \
@@ -286,7 +289,8 @@ typedef struct sigaction sa;
           sigaction(SIGSEGV, &old_sigsegv_exception_handler, NULL);   \
       }                                                               \
       pthread_mutex_unlock(&exception_handler_mutex);                 \
-      yr_thread_storage_set_value(&yr_trycatch_trampoline_tls, NULL); \
+      yr_thread_storage_set_value(                                    \
+          &yr_trycatch_trampoline_tls, yr_trycatch_outer_jumpinfo);   \
     }                                                                 \
     else                                                              \
     {                                                                 \
